@@ -142,6 +142,90 @@ def profiles(T, p3, p2):
             yield (p0, p1, p2, p3)
 
 
+_SHARED = {}
+
+
+def shared_report():
+    """ONE long-lived Report whose quality_profile is substituted per case: the property quantifies over all 4-tuples
+    (not only those some list of function lengths realises), and a report object may be asked for its summary more than
+    once while the code base changes (a memo keyed on too little would show here)."""
+    if "r" not in _SHARED:
+        _SHARED["r"] = make_report((0, 0, 0, 0))
+    return _SHARED["r"]
+
+
+def eval_stub(profile, render):
+    rep = shared_report()
+    rep.quality_profile = lambda p=tuple(profile): list(p)
+    q = rep.quality_profile_percentage()
+    e, v, h, u = q
+    shown = (e + v, h, u)
+    viol = check_numbers(profile, shown)
+    if render:
+        viol += check_render(profile, shown, rep)
+    return q, viol
+
+
+def structured_large(scale):
+    """near-tie / one-dominant-category shapes at large totals: every category takes a value from a small menu, one
+    category is dominant"""
+    small = [0, 1, 2, 16, 31, 61, scale // 200, scale // 100, scale // 99]
+    for dom in range(4):
+        for combo in __import__("itertools").product(small, repeat=3):
+            prof = list(combo)
+            prof.insert(dom, scale)
+            yield tuple(prof)
+
+
+def family_all(t):
+    """every 4-tuple with sum exactly t (consecutive cases share the total on purpose)"""
+    for p3 in range(0, t + 1):
+        for p2 in range(0, t - p3 + 1):
+            for p1 in range(0, t - p3 - p2 + 1):
+                yield (t - p3 - p2 - p1, p1, p2, p3)
+
+
+def family_dominant(dom_max, small_max):
+    """at most one category above small_max (the dominant one, up to dom_max); ordered by total"""
+    import itertools
+
+    for d in range(small_max + 1, dom_max + 1):
+        for dom in range(4):
+            for combo in itertools.product(range(small_max + 1), repeat=3):
+                prof = list(combo)
+                prof.insert(dom, d)
+                yield tuple(prof)
+
+
+def _block_stub(block, agg):
+    kind = block[0]
+    if kind == "all":
+        it, fam, render_rule = family_all(block[1]), "all-tuples", (lambda prof: sum(prof) % 5 == 0 and prof[0] % 3 == 0)
+    elif kind == "dominant":
+        lo, hi, small = block[1:]
+        it, fam, render_rule = (p for p in family_dominant(hi, small) if max(p) > lo), "one-dominant", (lambda prof: max(prof) % 50 == 0)
+    else:
+        it, fam, render_rule = structured_large(block[1]), "large-structured", (lambda prof: True)
+    prev = None
+    first = None
+    for prof in it:
+        if first is None or sum(first) != sum(prof):
+            first = prof
+        render = render_rule(prof)
+        q, viol = eval_stub(prof, render)
+        agg.case(list(prof), sum(1 for x in prof if x) >= 2, q, sample=prof[3] == 61)
+        for kd, sig, d in viol:
+            agg.violation(kd, dict(sig, family=fam), {"profile": list(prof), "render": render, "stub": True, "prev": [list(first), list(prev)] if prev else None, "family": fam}, d)
+        prev = prof
+
+
+def _dispatch(block, agg):
+    if block[0] in ("all", "large", "dominant"):
+        _block_stub(block, agg)
+    else:
+        _block(block, agg)
+
+
 def _block(block, agg):
     T, Tr, p3, p2 = block
     for prof in profiles(T, p3, p2):
@@ -156,6 +240,12 @@ def _block(block, agg):
 
 
 def replay(case):
+    if case.get("stub"):
+        _SHARED.clear()
+        for pv in case.get("prev") or []:
+            eval_stub(tuple(pv), case.get("render", True))  # summaries asked for earlier on the same Report (first of this total, previous)
+        _, viol = eval_stub(tuple(case["profile"]), case.get("render", True))
+        return [{"kind": k, "sig": dict(s, family=case.get("family", "all-tuples")), "detail": d} for k, s, d in viol]
     _, viol = eval_profile(tuple(case["profile"]), case.get("render", True))
     return [{"kind": k, "sig": s, "detail": d} for k, s, d in viol]
 
@@ -164,10 +254,13 @@ def run(ctx: core.Ctx):
     T = ctx.pick(110, 200)
     Tr = ctx.pick(93, 110)
     ctx.bounds = {"max_total": T, "max_total_rendered": Tr}
-    ctx.rule = ("cases = every 4-tuple (easy, verbose, hard, unmaintainable lines) with sum <= max_total that some list of function "
+    ctx.rule = ("three families. (1) realised:  every 4-tuple (easy, verbose, hard, unmaintainable lines) with sum <= max_total that some list of function "
                 "lengths realises (verbose in {0}U[16,30]U[32,..), hard in {0}U[31,60]U[62,..), unmaintainable in {0}U[61,..)), each "
                 "realised as real measurements in a real Report; rendered through both print_summary implementations when sum <= "
-                "max_total_rendered. Non-trivial: at least two non-empty categories. Outcome = the shown quadruple.")
+                "max_total_rendered. (2) all-tuples: EVERY 4-tuple of non-negative integers with sum <= all_tuples_max_total, and one-dominant: every tuple with three "
+                "entries <= max_other and one entry up to max_dominant; both pushed through the real percentage code on ONE long-lived Report whose quality_profile is "
+                "substituted per case, enumerated by total so that equal-total profiles follow each other on the same object. (3) large-structured: one dominant category at 10^3..10^7 x every combination of a 9-value menu for the other three, rendered. "
+                "Non-trivial: at least two non-empty categories. Outcome = the shown quadruple.")
     ctx.assumptions = ["percentages depend on the profile only (Report.quality_profile is recomputed and asserted per case)"]
     blocks = []
     for p3 in range(0, T + 1):
@@ -176,4 +269,16 @@ def run(ctx: core.Ctx):
         for p2 in range(0, T - p3 + 1):
             if realisable(2, p2):
                 blocks.append((T, Tr, p3, p2))
-    ctx.run_blocks(_block, blocks)
+    Ta = ctx.pick(44, 72)
+    dom = ctx.pick((420, 3), (2400, 4))
+    ctx.bounds["all_tuples_max_total"] = Ta
+    ctx.bounds["one_dominant(max_dominant, max_other)"] = list(dom)
+    ctx.bounds["structured_large_scales"] = [1000, 10 ** 4, 10 ** 5, 10 ** 6, 10 ** 7]
+    for t in range(0, Ta + 1):
+        blocks.append(("all", t))
+    step = 40
+    for lo in range(dom[1], dom[0], step):
+        blocks.append(("dominant", lo, min(dom[0], lo + step), dom[1]))
+    for scale in ctx.bounds["structured_large_scales"]:
+        blocks.append(("large", scale))
+    ctx.run_blocks(_dispatch, blocks)
